@@ -23,7 +23,7 @@ class ExprMixin:
     def oblige(self, path, kind, goal, node=None, note="", assume=True):
         if isinstance(goal, bool):
             goal = z3.BoolVal(goal)
-        if not kind.startswith("safe:") and z3.is_app(goal) and goal.decl().kind() == z3.Z3_OP_AND and "." not in kind.split(":")[0]:
+        if not kind.startswith("safe:") and "." not in kind.split(":")[0] and len(_flat_and(goal)) > 1:
             # one obligation per conjunct: a failure then names the clause
             base, _, rest = kind.partition(":")
             for i, part in enumerate(_flat_and(goal), 1):
@@ -887,11 +887,18 @@ class ExprMixin:
 
 
 def _flat_and(e):
-    if z3.is_app(e) and e.decl().kind() == z3.Z3_OP_AND:
-        out = []
-        for c in e.children():
-            out += _flat_and(c)
-        return out
+    """clauses of a contract formula: conjunctions are split, also below an implication / if-then-else"""
+    if z3.is_app(e):
+        k = e.decl().kind()
+        if k == z3.Z3_OP_AND:
+            out = []
+            for c in e.children():
+                out += _flat_and(c)
+            return out
+        if k == z3.Z3_OP_IMPLIES:
+            return [sv.Implies(e.arg(0), c) for c in _flat_and(e.arg(1))]
+        if k == z3.Z3_OP_ITE and e.arg(1).sort() == sv.BoolS:
+            return [sv.Implies(e.arg(0), c) for c in _flat_and(e.arg(1))] + [sv.Implies(sv.Not(e.arg(0)), c) for c in _flat_and(e.arg(2))]
     return [e]
 
 
